@@ -219,6 +219,7 @@ func runC11(c *Ctx, tier string) {
 	runC11P1(c)
 	runC01Channels(c, "C11")
 	runC11N1(c, append([]string{""}, c11ReaderPkgs...)...)
+	runDecoderCursorBound(c, "C11-B1")
 }
 
 func init() {
